@@ -19,13 +19,51 @@ from harness.core import run_driver
 import FlowCal.io  # noqa: E402
 
 
+_BUFDIR = {}
+
+
+def segment_buffer(raw):
+    """`buf` is documented as a file-like object: mostly an in-memory stream; every sixteenth string (by its contents) is
+    handed over as a real file opened for reading, as a decompressing handle (gzip: its descriptor is that of the SMALLER
+    compressed file), or as the read/write handle it was just written through (not yet flushed)"""
+    import zlib
+    k = zlib.crc32(raw) % 48
+    if k > 2 or not raw:
+        return io.BytesIO(raw), None, 0
+    d = _BUFDIR.get(os.getpid())
+    if d is None:
+        d = _BUFDIR[os.getpid()] = tlc.scratch('c14b_')
+    p = os.path.join(d, 'seg.bin')
+    if k == 0:
+        with open(p, 'wb') as f:
+            f.write(raw)
+        h = open(p, 'rb')
+    elif k == 1:
+        import gzip
+        # (the segment sits behind 4 KB of blank padding, as a TEXT segment sits behind other segments)
+        with gzip.open(p + '.gz', 'wb') as f:
+            f.write(b' ' * 4096 + raw)
+        return gzip.open(p + '.gz', 'rb'), None, 4096
+    else:
+        h = open(p, 'w+b')
+        h.write(raw)
+    return h, h, 0
+
+
 def real_segment(raw, delim, supp, auto=False):
     """Call the real reader on bytes; project to (k, dict-as-list-of-pairs, warn)."""
-    buf = io.BytesIO(raw)
+    buf, owned, begin = segment_buffer(raw)
+    try:
+        return _real_segment(buf, raw, delim, supp, auto, begin)
+    finally:
+        buf.close()
+
+
+def _real_segment(buf, raw, delim, supp, auto, begin=0):
     with warnings.catch_warnings(record=True) as w:
         warnings.simplefilter('always')
         try:
-            text, d = FlowCal.io.read_fcs_text_segment(buf, 0, len(raw) - 1,
+            text, d = FlowCal.io.read_fcs_text_segment(buf, begin, begin + len(raw) - 1,
                                                       delim=None if auto else delim, supplemental=supp)
         except Exception as e:   # any exception class counts as refusal
             return 'err', None, False, type(e).__name__
